@@ -12,6 +12,7 @@ import (
 	"fmt"
 	"io"
 	"net/http"
+	"net/url"
 	"os"
 	"path/filepath"
 	"runtime/debug"
@@ -23,6 +24,7 @@ import (
 
 	"github.com/superfly/litefs"
 	lfshttp "github.com/superfly/litefs/http"
+	"github.com/superfly/litefs/lfsc"
 	"github.com/superfly/ltx"
 	"verif/lab"
 	"verif/mon"
@@ -43,6 +45,12 @@ type Config struct {
 	Alphabet  []string `json:"alphabet"` // event templates enabled (see Enabled)
 	Retention bool     `json:"retention"`
 	Backup    bool     `json:"backup"` // nodes are configured with a (dummy) backup client: retention must honour the high-water mark
+	// BackupKind selects a real backup client on every candidate node, all talking to one service:
+	// "file" (litefs.FileBackupClient) or "lfsc" (lfsc.BackupClient against lab.FakeLFSC). Enables the C14 oracles.
+	BackupKind string `json:"backup_kind,omitempty"`
+	// BackupLoop runs the store's own continuous sync loop (1 s batching delay, position map cached for the
+	// whole history) instead of explicit sync events; faults are armed by "arm:<fault>" events.
+	BackupLoop bool `json:"backup_loop,omitempty"`
 	// Prelude is a fixed event sequence applied (and checked) before the search starts: non-initial start states.
 	Prelude []string `json:"prelude,omitempty"`
 }
@@ -78,6 +86,16 @@ type runner struct {
 	// transcript of LTX frames seen on streams: (to, db, header)
 	frames []frameRec
 	noConverge bool
+
+	// backup service (C14)
+	svc       *lab.BackupSvc
+	fcs       map[string]*lab.FaultClient // per node
+	acked     map[string]uint64           // db -> largest TXID the service held when it acknowledged an upload
+	svcDigest map[string]string           // service files after the previous event
+	svcPosPrev map[string]ltx.Pos         // service positions after the previous event (loop mode)
+	priPosPrev map[string]ltx.Pos         // primary positions after the previous event (loop mode)
+	priPrevName string
+	restores  int
 }
 
 type frameRec struct {
@@ -116,6 +134,7 @@ func Run(t *testing.T, cfg Config, history []string) (res Result) {
 		}
 		for _, ev := range history {
 			r.hist = append(r.hist, ev)
+			res.Class = ""
 			if !r.apply(ev) {
 				return
 			}
@@ -139,6 +158,18 @@ func (r *runner) setup() bool {
 		cfg.DemoteDelay = 3 * time.Second
 		if r.cfg.Backup {
 			cfg.BackupClient = nopBackup{}
+		}
+		if r.cfg.BackupKind != "" && cfg.Candidate {
+			r.attachBackup(cfg)
+		}
+	}
+	if r.cfg.BackupKind != "" {
+		r.svc = lab.NewBackupSvc(filepath.Join(c.Base, "svc"))
+		r.fcs = map[string]*lab.FaultClient{}
+		r.acked = map[string]uint64{}
+		r.svcDigest = map[string]string{}
+		if r.cfg.BackupKind == "lfsc" {
+			c.Net.Register("lfsc", &lab.FakeLFSC{Svc: r.svc})
 		}
 	}
 	c.AddNode("P", true, nil)
@@ -507,6 +538,20 @@ func (r *runner) apply(ev string) bool {
 				return r.recreate(p, f[1])
 			}
 		}
+	case "sync":
+		fault := ""
+		if len(f) > 1 {
+			fault = f[1]
+		}
+		return r.syncBackup(fault)
+	case "svc":
+		return r.svcEvent(f[1], f[2])
+	case "arm":
+		if p := r.c.Primary(); p != nil && r.fcs[p.Cfg.Name] != nil {
+			r.fcs[p.Cfg.Name].Arm = f[1]
+		}
+	case "burst":
+		return r.burst(f[1], 257)
 	default:
 		r.res.Harness = "unknown event " + ev
 		return false
@@ -604,7 +649,7 @@ func (r *runner) sweep(n *lab.Node, ret string) bool {
 			} else if !fi.mtime.Before(now.Add(-d)) {
 				r.viol("C09/removed-young", "%s: %s (mtime %s) is not older than the retention period %s at %s", who, name, fi.mtime, d, now)
 			}
-			if r.cfg.Backup && !(fi.max < hwm[db.Name()]) {
+			if (r.cfg.Backup || r.cfg.BackupKind != "") && !(fi.max < hwm[db.Name()]) {
 				r.viol("C09/removed-unconfirmed", "%s: %s (max TXID %d) was removed although the backup high-water mark is %d", who, name, fi.max, hwm[db.Name()])
 			}
 		}
@@ -753,6 +798,7 @@ func (r *runner) quiesceAndCheck(ev string) bool {
 			}
 		}
 	}
+	r.checkBackup(ev)
 	if len(r.c.Net.Panics) > 0 {
 		r.viol("C20/handler-panic", "HTTP handler panicked: %s", r.c.Net.Panics[0])
 	}
@@ -933,6 +979,47 @@ func (r *runner) enabled() []string {
 			out = append(out, "sweep:"+n+":0", "sweep:"+n+":1ns", "sweep:"+n+":10m")
 		}
 	}
+	if r.svc != nil && p != nil {
+		if has("sync") && !r.cfg.BackupLoop {
+			out = append(out, "sync")
+		}
+		for _, flt := range []string{"wt-before", "wt-after", "wt-partial", "pm", "fs", "fs-partial"} {
+			if has("sync:"+flt) && !r.cfg.BackupLoop {
+				out = append(out, "sync:"+flt)
+			}
+			if has("arm:"+flt) && r.cfg.BackupLoop && r.fcs[p.Cfg.Name] != nil && r.fcs[p.Cfg.Name].Arm == "" {
+				out = append(out, "arm:"+flt)
+			}
+		}
+		for _, db := range dbs {
+			ch := r.svc.Chain(db)
+			for _, k := range []string{"wipe", "back", "ahead", "fork"} {
+				if !has("svc:" + k) {
+					continue
+				}
+				switch k {
+				case "wipe":
+					if len(ch.Files) == 0 {
+						continue
+					}
+				case "back":
+					if len(ch.Files) < 2 {
+						continue
+					}
+				case "ahead", "fork":
+					if ch.Image() == nil || ch.Image().N() < 2 || ch.Pos().TXID > 40 {
+						continue
+					}
+				}
+				out = append(out, "svc:"+k+":"+db)
+			}
+			if has("burst") {
+				if d := p.DB(db); d != nil && d.PageN() > 0 && d.Pos().TXID < 100 {
+					out = append(out, "burst:"+db)
+				}
+			}
+		}
+	}
 	if has("demote") && p != nil {
 		out = append(out, "demote")
 	}
@@ -984,6 +1071,372 @@ func (r *runner) stateKey() string {
 			}
 		}
 	}
+	if r.svc != nil {
+		d := r.svc.Digest()
+		var ks []string
+		for k := range d {
+			ks = append(ks, k)
+		}
+		sort.Strings(ks)
+		for _, k := range ks {
+			fmt.Fprintf(h, "svc %s %s\n", k, d[k])
+		}
+		for _, name := range r.c.Names() {
+			if fc := r.fcs[name]; fc != nil && r.c.Nodes[name].Running() {
+				fmt.Fprintf(h, "client %s arm=%s view=%s\n", name, fc.Arm, fc.ViewString())
+			}
+		}
+	}
 	// The reference history matters for the oracles (which positions are known).
 	return hex.EncodeToString(h.Sum(nil)[:16])
+}
+
+
+// attachBackup configures the node with the real backup client of the configured kind behind a FaultClient.
+func (r *runner) attachBackup(cfg *lab.NodeConfig) {
+	name := cfg.Name
+	prev := cfg.Configure
+	cfg.Configure = func(s *litefs.Store) {
+		if prev != nil {
+			prev(s)
+		}
+		var inner litefs.BackupClient
+		switch r.cfg.BackupKind {
+		case "file":
+			fc := litefs.NewFileBackupClient(r.svc.Dir)
+			if err := fc.Open(); err != nil {
+				panic(err)
+			}
+			inner = fc
+		case "lfsc":
+			bc := lfsc.NewBackupClient(s, url.URL{Scheme: "http", Host: "lfsc"})
+			bc.HTTPClient = &http.Client{Transport: r.c.Net.Transport(name)}
+			if err := bc.Open(); err != nil {
+				panic(err)
+			}
+			inner = bc
+		default:
+			panic("bad backup kind " + r.cfg.BackupKind)
+		}
+		f := &lab.FaultClient{Inner: inner}
+		f.OnAck = func(db string, hwm ltx.TXID) {
+			if t := uint64(r.svc.Chain(db).Pos().TXID); t > r.acked[db] {
+				r.acked[db] = t
+			}
+		}
+		r.fcs[name] = f
+		s.BackupClient = f
+		s.BackupDelay = 0 // the continuous monitor is off; sync events call Store.SyncBackup
+		if r.cfg.BackupLoop {
+			s.BackupDelay = time.Second
+			s.BackupFullSyncInterval = time.Hour // the cached position map is never refreshed within a history
+		}
+	}
+}
+
+// localImage reads the primary's logical image of db from its data directory.
+func localImage(n *lab.Node, db string) (*oracle.Image, error) {
+	d := n.DB(db)
+	if d == nil || d.PageN() == 0 {
+		return &oracle.Image{}, nil
+	}
+	return oracle.ReadLogicalImage(d.Path(), int(d.VerifPageSize()))
+}
+
+// syncBackup runs one Store.SyncBackup on the primary, optionally with one injected fault, and judges the step.
+func (r *runner) syncBackup(fault string) bool {
+	p := r.c.Primary()
+	if p == nil || r.svc == nil {
+		return true
+	}
+	fc := r.fcs[p.Cfg.Name]
+	if fc == nil {
+		r.res.Harness = "primary has no backup client"
+		return false
+	}
+	type ps struct{ pri, svc ltx.Pos }
+	before := map[string]ps{}
+	names := map[string]bool{}
+	for _, db := range p.Store.DBs() {
+		names[db.Name()] = true
+	}
+	for _, n := range r.svc.DBs() {
+		names[n] = true
+	}
+	for n := range names {
+		var b ps
+		if d := p.DB(n); d != nil {
+			b.pri = d.Pos()
+		}
+		b.svc = r.svc.Chain(n).Pos()
+		before[n] = b
+	}
+	fc.Arm, fc.Fired, fc.Calls = fault, "", nil
+	err := p.Store.SyncBackup(context.Background())
+	armedLeft := fc.Arm
+	fc.Arm = ""
+	lab.Settle(10 * time.Millisecond)
+	{
+		// outcome class for the evidence file: which client calls the sync made and how it ended
+		kinds := map[string]int{}
+		for _, c := range fc.Calls {
+			kinds[strings.Fields(c)[0]]++
+		}
+		moved := false
+		for n, b := range before {
+			if d := p.DB(n); d != nil && d.Pos() != b.pri {
+				moved = true
+			}
+		}
+		r.res.Class = fmt.Sprintf("%s posmap=%d upload=%d fetch=%d err=%v fired=%q primary-moved=%v", r.cfg.BackupKind, kinds["PosMap"], kinds["WriteTx"], kinds["FetchSnapshot"], err != nil, fc.Fired, moved)
+	}
+	if fault != "" {
+		if fc.Fired == "" {
+			r.res.Info = "fault " + fault + " did not fire (no matching call)"
+		}
+		_ = armedLeft
+		return true // only the invariants (chain, lineage, never overwritten, high-water mark) are judged after a faulty sync
+	}
+	if err != nil {
+		r.viol("C14/sync-error", "Store.SyncBackup on an idle primary against a healthy service failed: %v\nclient calls: %v", err, fc.Calls)
+		return false
+	}
+	for n, b := range before {
+		var pri ltx.Pos
+		d := p.DB(n)
+		if d != nil {
+			pri = d.Pos()
+		}
+		ch := r.svc.Chain(n)
+		svc := ch.Pos()
+		if pri.IsZero() && svc.IsZero() {
+			continue
+		}
+		if pri != b.pri {
+			r.restores++
+		}
+		if svc == pri {
+			img, ierr := localImage(p, n)
+			simg := ch.Image()
+			if ierr != nil || simg == nil {
+				r.viol("C14/restore-unreadable", "%s: after sync at %s: local image error %v, service image %v", n, pri, ierr, simg != nil)
+				continue
+			}
+			if simg.N() == 0 && img.N() == 0 {
+				continue
+			}
+			if ok, diff := img.Equal(simg); !ok {
+				r.viol("C14/restored-image-differs", "%s: service and primary are both at %s but the database restored from the service differs from the primary's: %s\nclient calls: %v", n, pri, diff, fc.Calls)
+			}
+			continue
+		}
+		if pri == b.pri && !b.svc.IsZero() && pri.TXID > svc.TXID && uint64(svc.TXID) >= uint64(b.svc.TXID)+litefs.MaxBackupLTXFileN {
+			continue // a full batch of the compaction limit was uploaded; the next sync continues
+		}
+		r.viol("C14/sync-no-catch-up", "%s: before the sync the primary was at %s and the service at %s; after a successful sync of an idle primary the primary is at %s and the service at %s (want equal positions, or at least one batch of %d transactions uploaded)\nclient calls: %v",
+			n, b.pri, b.svc, pri, svc, litefs.MaxBackupLTXFileN, fc.Calls)
+	}
+	return len(r.res.V) == 0
+}
+
+// svcEvent mutates the service behind the primary's back.
+func (r *runner) svcEvent(kind, db string) bool {
+	ch := r.svc.Chain(db)
+	if len(ch.Errors) > 0 {
+		return true
+	}
+	switch kind {
+	case "wipe":
+		r.svc.Wipe(db)
+	case "back":
+		if len(ch.Files) >= 2 {
+			r.svc.RemoveNewest(db)
+		}
+	case "ahead":
+		img := ch.Image()
+		if img == nil || img.N() < 2 {
+			return true
+		}
+		pos := ch.Pos()
+		next := img.Clone()
+		next.Pages[1] = pager.MakePage(img.PageSize, 2, 0x500000+uint32(pos.TXID)<<8)
+		data := lab.EncodeLTX(ltx.Header{Version: 1, PageSize: uint32(img.PageSize), Commit: next.N(), MinTXID: pos.TXID + 1, MaxTXID: pos.TXID + 1, Timestamp: 3, PreApplyChecksum: pos.PostApplyChecksum, NodeID: 0xA4EAD},
+			map[uint32][]byte{2: next.Pages[1]}, next.Checksum())
+		if err := r.svc.Put(db, pos.TXID+1, pos.TXID+1, data); err != nil {
+			r.res.Harness = err.Error()
+			return false
+		}
+		r.record(db, ltx.Pos{TXID: pos.TXID + 1, PostApplyChecksum: ltx.Checksum(next.Checksum())}, next)
+	case "fork":
+		// the newest file is replaced by one of the same range with other content
+		k := len(ch.Files)
+		if k == 0 || ch.Image().N() < 2 {
+			return true
+		}
+		last := ch.Files[k-1]
+		var data []byte
+		var next *oracle.Image
+		if k == 1 {
+			next = ch.Image().Clone()
+			next.Pages[1] = pager.MakePage(next.PageSize, 2, 0x600000+uint32(last.Header.MaxTXID)<<8)
+			data = lab.SnapshotLTX(next, last.Header.MaxTXID)
+		} else {
+			prev := ch.Images[k-2]
+			if prev.N() < 2 {
+				return true
+			}
+			next = prev.Clone()
+			next.Pages[1] = pager.MakePage(next.PageSize, 2, 0x600000+uint32(last.Header.MaxTXID)<<8)
+			pp := ch.Files[k-2]
+			data = lab.EncodeLTX(ltx.Header{Version: 1, PageSize: uint32(next.PageSize), Commit: next.N(), MinTXID: last.Header.MinTXID, MaxTXID: last.Header.MaxTXID, Timestamp: 3, PreApplyChecksum: pp.Trailer.PostApplyChecksum, NodeID: 0xF04C},
+				map[uint32][]byte{2: next.Pages[1]}, next.Checksum())
+		}
+		if err := r.svc.Put(db, last.Header.MinTXID, last.Header.MaxTXID, data); err != nil {
+			r.res.Harness = err.Error()
+			return false
+		}
+		r.record(db, ltx.Pos{TXID: last.Header.MaxTXID, PostApplyChecksum: ltx.Checksum(next.Checksum())}, next)
+	default:
+		r.res.Harness = "bad svc event " + kind
+		return false
+	}
+	return true
+}
+
+// checkBackup evaluates the service-side invariants of C14 after every event.
+func (r *runner) checkBackup(ev string) {
+	if r.svc == nil {
+		return
+	}
+	k := evKind(ev)
+	if r.cfg.BackupLoop && !strings.HasPrefix(ev, "svc:") && !strings.HasPrefix(ev, "arm:") {
+		r.loopCaughtUp(ev)
+	}
+	now := r.svc.Digest()
+	if !strings.HasPrefix(ev, "svc:") {
+		for name, sum := range r.svcDigest {
+			if got, ok := now[name]; !ok {
+				r.viol("C14/service-file-removed/"+k, "the service's file %s disappeared during %q", name, ev)
+			} else if got != sum {
+				r.viol("C14/service-file-overwritten/"+k, "the service's file %s was overwritten during %q (%s -> %s)", name, ev, sum, got)
+			}
+		}
+	}
+	r.svcDigest = now
+	for _, db := range r.svc.DBs() {
+		ch := r.svc.Chain(db)
+		for _, e := range ch.Errors {
+			r.viol("C14/service-chain-broken/"+k, "service, database %q after %q: %s (files %v)", db, ev, e, r.svc.Files(db))
+			break
+		}
+		if len(ch.Errors) > 0 {
+			continue
+		}
+		for i, f := range ch.Files {
+			key := posKey{uint64(f.Header.MaxTXID), uint64(f.Trailer.PostApplyChecksum)}
+			want, ok := r.ref[db][key]
+			if !ok {
+				r.viol("C14/service-not-in-history/"+k, "service, database %q after %q: %s ends at (%d,%016x), a position no primary ever committed", db, ev, f.Name, key.TXID, key.Chk)
+				break
+			}
+			if ok, diff := ch.Images[i].Equal(want); !ok && !(ch.Images[i].N() == 0 && want.N() == 0) {
+				r.viol("C14/service-image-wrong/"+k, "service, database %q after %q: the image restored up to %s differs from the primary's image at that position: %s", db, ev, f.Name, diff)
+				break
+			}
+		}
+	}
+	for _, name := range r.c.Names() {
+		n := r.c.Nodes[name]
+		if !n.Running() {
+			continue
+		}
+		for _, db := range n.Store.DBs() {
+			if h := uint64(db.HWM()); h > r.acked[db.Name()] {
+				r.viol("C14/hwm-above-acknowledged/"+k, "%s/%s publishes high-water mark %d but the service has acknowledged at most %d (service now at %s)", name, db.Name(), h, r.acked[db.Name()], r.svc.Chain(db.Name()).Pos())
+			}
+		}
+	}
+}
+
+// burst commits n small transactions on db.
+func (r *runner) burst(db string, n int) bool {
+	for i := 0; i < n; i++ {
+		if !r.tx(db, "t1") {
+			return false
+		}
+	}
+	return true
+}
+
+
+// loopCaughtUp is the liveness oracle for the continuous sync loop: some time
+// after the last event (retries run every second) the service is at the
+// primary's position with an identical restored image, or it moved at least
+// one compaction batch closer since the previous event.
+func (r *runner) loopCaughtUp(ev string) {
+	p := r.c.Primary()
+	if p == nil {
+		return
+	}
+	var why string
+	ok := lab.WaitFor(20*time.Second, func() bool {
+		why = ""
+		names := map[string]bool{}
+		for _, db := range p.Store.DBs() {
+			names[db.Name()] = true
+		}
+		for _, n := range r.svc.DBs() {
+			names[n] = true
+		}
+		for n := range names {
+			var pri ltx.Pos
+			if d := p.DB(n); d != nil {
+				pri = d.Pos()
+			}
+			svc := r.svc.Chain(n).Pos()
+			if pri == svc {
+				continue
+			}
+			if r.priPrevName == p.Cfg.Name && !strings.HasPrefix(ev, "restart:") && r.priPosPrev[n] == pri {
+				continue // nothing changed on this primary: the loop only runs on a change (or on the full-sync interval, an hour here)
+			}
+			if prev, ok := r.svcPosPrev[n]; ok && !prev.IsZero() && pri.TXID > svc.TXID && uint64(svc.TXID) >= uint64(prev.TXID)+litefs.MaxBackupLTXFileN {
+				continue
+			}
+			why = fmt.Sprintf("%s: primary %s at %s, service at %s", n, p.Cfg.Name, pri, svc)
+			return false
+		}
+		return true
+	})
+	if !ok {
+		fc := r.fcs[p.Cfg.Name]
+		r.viol("C14/loop-no-catch-up/"+evKind(ev), "20 fake seconds after %q the sync loop has not brought the service to the primary's position: %s\nclient calls: %v", ev, why, tailS(fc.Calls, 12))
+		return
+	}
+	lab.Settle(1500 * time.Millisecond) // let replicas follow a restore
+	r.priPrevName = p.Cfg.Name
+	r.priPosPrev = map[string]ltx.Pos{}
+	for _, db := range p.Store.DBs() {
+		r.priPosPrev[db.Name()] = db.Pos()
+	}
+	r.svcPosPrev = map[string]ltx.Pos{}
+	for _, n := range r.svc.DBs() {
+		ch := r.svc.Chain(n)
+		r.svcPosPrev[n] = ch.Pos()
+		d := p.DB(n)
+		if d == nil || d.Pos() != ch.Pos() || ch.Image() == nil {
+			continue
+		}
+		img, err := localImage(p, n)
+		if err != nil {
+			r.viol("C14/restore-unreadable", "%s: %v", n, err)
+			continue
+		}
+		if img.N() == 0 && ch.Image().N() == 0 {
+			continue
+		}
+		if ok, diff := img.Equal(ch.Image()); !ok {
+			r.viol("C14/restored-image-differs", "%s: service and primary are both at %s but the database restored from the service differs from the primary's: %s", n, d.Pos(), diff)
+		}
+	}
 }
